@@ -41,6 +41,7 @@ func runPrelude(pre []PreOp) func() {
 			obj := ToStruct(op.V)
 			var buf bytes.Buffer
 			_, _, _ = safely(func() error { return EncodeAny(obj, &buf) })
+			scribble(&buf)
 		case "dec":
 			obj := regByName[op.Type].New()
 			buf := bytes.NewBuffer(append([]byte{}, op.W...))
@@ -83,6 +84,7 @@ func runPrelude(pre []PreOp) func() {
 					fv.Set(reflect.ValueOf(&PartialFail{N: op.K}))
 					var buf bytes.Buffer
 					_, _, _ = safely(func() error { return EncodeAny(obj, &buf) })
+					scribble(&buf)
 				}
 			}
 		case "unreg":
